@@ -105,7 +105,18 @@ mod rt {
         {
             let sk = Key::<48>::try_from("20347609607477aca8fbfbc5e6218455f3199669792ef8b466faa87bdc67798144c848dd03661eed5ac62461340cea96").unwrap();
             let pk = Key::<49>::try_from("02fbcb7c69ee1c60579be7a334134878d9c5c5bf35d552dab63c0140397ed14cef637d7720925c44699ea30e72874c72fb").unwrap();
-            tally(public_rt!(V3, "v3.public", PasetoAsymmetricPrivateKey::<V3, Public>::from(&sk), PasetoAsymmetricPublicKey::<V3, Public>::try_from(&pk).unwrap(), [None]));
+            let first = public_rt!(V3, "v3.public", PasetoAsymmetricPrivateKey::<V3, Public>::from(&sk), PasetoAsymmetricPublicKey::<V3, Public>::try_from(&pk).unwrap(), [None]);
+            // a second key pair whose compressed public point has odd y (SEC1 tag 0x03; the vector key has 0x02)
+            let sk = Key::<48>::try_from("11000000000000000000000000000000000000001c000000000000000000000000000000000000000000000000000004").unwrap();
+            let pk = Key::<49>::try_from("037472dad16f7a27bb9f4c615a4ed4a8ccc6e448219784cace3d5834ef41e4c3f8c31497c17edd60814706137bb8311698").unwrap();
+            let second = match PasetoAsymmetricPublicKey::<V3, Public>::try_from(&pk) {
+                Ok(pk) => public_rt!(V3, "v3.public (odd y)", PasetoAsymmetricPrivateKey::<V3, Public>::from(&sk), pk, [None]),
+                Err(e) => {
+                    println!("v3.public (odd y): public key refused: {:?}", e);
+                    false
+                }
+            };
+            tally(first && second);
         }
         #[cfg(feature = "v4_public")]
         tally(public_rt!(V4, "v4.public", PasetoAsymmetricPrivateKey::<V4, Public>::from(&ed_sk), PasetoAsymmetricPublicKey::<V4, Public>::from(&ed_pk), [None]));
